@@ -554,14 +554,29 @@ func VF_C07_Entry() {
 	var held []*model.PushPullPack
 	fault := 1 + vf.Choice("fault", 2) // 1: response lost, 2: request delivered twice
 	vf.Tag("fault", fault)
+	// between the faulted first exchange and its repeat another client may enter the
+	// datatype (which exists on the server by then) and push
+	between := vf.Choice("other-client-in-between", 2) == 1
+	vf.Tag("between", between)
+	var heldO []*model.PushPullPack
+	o := a
 	panicked, msg := vf.Try(func() {
 		b.exchange(w, fault, &held)
+		if between {
+			if !exists {
+				o.cnt = o.cli.SubscribeCounter(vfKey, o.handlers())
+				o.exchange(w, 0, &heldO)
+			}
+			_, _ = o.cnt.IncreaseBy(1000)
+			total += 1000
+			o.exchange(w, 0, &heldO)
+		}
 		b.exchange(w, 0, &held)
 		_, _ = b.cnt.IncreaseBy(10)
 		total += 10
 		b.exchange(w, 0, &held)
-		if exists {
-			a.exchange(w, 0, &held)
+		if exists || between {
+			a.exchange(w, 0, &heldO)
 		}
 	})
 	vf.Reach("settled")
@@ -588,7 +603,7 @@ func VF_C07_Entry() {
 	sv, _, ok := w.serverValue(vfKey)
 	vf.Assert(ok && sv == total, "C07 the server's copy equals the fault-free outcome")
 	vf.Assert(b.cnt.Get() == total, "C07 replica b equals the fault-free outcome")
-	if exists {
+	if exists || between {
 		vf.Assert(a.cnt.Get() == total, "C07 replica a equals the fault-free outcome")
 	}
 	_, _, _, pend := orda.VFSyncState(b.cnt)
